@@ -112,6 +112,56 @@ pub fn check_triple(local_ms: i128, base: u64, kind: VoucherKind) -> Result<bool
     }
 }
 
+/// Local times with a sub-millisecond part.  The statement's window is in milliseconds; for a
+/// local time between two millisecond ticks the code works on the tick at or below it.  The
+/// verdict is asserted only where that reading and the real-valued one agree (they differ only
+/// for local - base strictly between +2990 and +2991 ms); exactness of get_local_time, agreement
+/// of new / check and absence of panics are asserted everywhere.
+pub fn check_triple_ns(local_ns: i128, base: u64, kind: VoucherKind) -> Result<bool, String> {
+    let Ok(odt) = OffsetDateTime::from_unix_timestamp_nanos(local_ns) else {
+        return Ok(false);
+    };
+    let local = PrimitiveDateTime::new(odt.date(), odt.time());
+    let voucher = make_voucher(kind, base);
+    let tick = local_ns.div_euclid(1_000_000);
+    let by_tick = reference_accepts(tick, base, kind);
+    let delta_ns = local_ns - base as i128 * 1_000_000;
+    let by_real = kind == VoucherKind::Genuine && local_ns >= 0 && (-59_900i128 * 1_000_000..=2_990i128 * 1_000_000).contains(&delta_ns);
+    let got = catch(|| match VouchedTime::new(local, base, voucher) {
+        Ok(vt) => {
+            vt.check_or_die();
+            Ok(Some(vt.get_local_time()))
+        }
+        Err(_) => {
+            if VouchedTime::check(local, base, voucher).is_ok() {
+                Err("new() failed but check() succeeds".to_string())
+            } else {
+                Ok(None)
+            }
+        }
+    });
+    let describe = || format!("local = epoch{:+} ns (local - base = {} ns), voucher {:?}", local_ns, delta_ns, kind);
+    match got {
+        Err(p) => Err(format!("panicked: {}", p)),
+        Ok(Err(e)) => Err(e),
+        Ok(Ok(Some(back))) => {
+            if back != local {
+                return Err(format!("get_local_time() = {} but the VouchedTime was built from {}", back, local));
+            }
+            if by_tick == by_real && !by_real {
+                return Err(format!("accepted: {}", describe()));
+            }
+            Ok(true)
+        }
+        Ok(Ok(None)) => {
+            if by_tick == by_real && by_real {
+                return Err(format!("rejected although inside the window: {}", describe()));
+            }
+            Ok(false)
+        }
+    }
+}
+
 fn violation(rep: &mut Report, local_ms: i128, base: u64, kind: VoucherKind, err: &str) {
     if check_triple(local_ms, base, kind).is_ok() {
         machinery_failure("C14 violation did not reproduce");
@@ -263,6 +313,50 @@ pub fn run(ctx: &Ctx) -> Report {
             }
         }
     }
+    // (iv) sub-millisecond local times around every edge and around the epoch
+    {
+        let mut sub_bases: Vec<u64> = vec![0, 1, 59_900, 59_901, 1_000_999, 1_713_027_659_000, 1_713_027_659_950, 1_713_027_659_999];
+        sub_bases.extend(bases.iter().copied().filter(|b| *b < (1u64 << 50)).take(12));
+        for base in sub_bases {
+            let u = unit;
+            unit += 1;
+            if !ctx.owns(u) {
+                continue;
+            }
+            let mut locals_ns: Vec<i128> = Vec::new();
+            for delta_ms in [-59_902i128, -59_901, -59_900, -59_899, -1_000, -1, 0, 1, 2_989, 2_990, 2_991] {
+                for off in [0i128, 1, 499_999, 500_000, 999_999] {
+                    locals_ns.push((base as i128 + delta_ms) * 1_000_000 + off);
+                }
+            }
+            for ns in [-1_000_001i128, -1_000_000, -999_999, -500_000, -1, 0, 1, 999_999] {
+                locals_ns.push(ns);
+            }
+            for local_ns in locals_ns {
+                for kind in [VoucherKind::Genuine, VoucherKind::ForBasePlus1] {
+                    rep.evaluations += 1;
+                    rep.count("sub_millisecond_triples", 1);
+                    match check_triple_ns(local_ns, base, kind) {
+                        Ok(acc) => {
+                            if acc {
+                                rep.nontrivial += 1;
+                            }
+                        }
+                        Err(e) => {
+                            if check_triple_ns(local_ns, base, kind).is_ok() {
+                                machinery_failure("C14 sub-millisecond violation did not reproduce");
+                            }
+                            rep.violation(Violation {
+                                key: format!("C14:local_ns={}:base={}:{:?}", local_ns, base, kind),
+                                summary: format!("VouchedTime::new(local = epoch{:+} ns, base = {} ms, voucher {:?}): {}", local_ns, base, kind, e),
+                                replay_text: format!("check: window-ns\nlocal_ns: {}\nbase: {}\nvoucher: {:?}\nobserved: {}\n", local_ns, base, kind, e),
+                            });
+                        }
+                    }
+                }
+            }
+        }
+    }
     // now(): the provider sees the clock reading `now` and answers base = now_ms + d.
     if ctx.owns(unit) {
         let mut ds: Vec<i128> = vec![-3_100, -2_991, -2_990, -2_989, -1, 0, 1, 59_899, 59_900, 59_901, 62_000];
@@ -319,6 +413,15 @@ pub fn run(ctx: &Ctx) -> Report {
 }
 
 pub fn replay(text: &str) -> Result<String, String> {
+    if field(text, "check") == Some("window-ns") {
+        let local_ns: i128 = field(text, "local_ns").and_then(|x| x.parse().ok()).unwrap_or_else(|| machinery_failure("bad local_ns"));
+        let base: u64 = field(text, "base").and_then(|x| x.parse().ok()).unwrap_or_else(|| machinery_failure("bad base"));
+        let kind = VOUCHERS.iter().copied().find(|k| Some(format!("{:?}", k).as_str()) == field(text, "voucher")).unwrap_or(VoucherKind::Genuine);
+        return match check_triple_ns(local_ns, base, kind) {
+            Err(e) => Ok(format!("local_ns {} base {} {:?}: {}", local_ns, base, kind, e)),
+            Ok(acc) => Err(format!("local_ns {} base {} {:?}: {} as the window rule requires", local_ns, base, kind, if acc { "accepted" } else { "rejected" })),
+        };
+    }
     if field(text, "check") != Some("window") {
         machinery_failure("only window artefacts can be replayed (now() depends on the clock)");
     }
